@@ -536,6 +536,13 @@ impl Check for C18 {
     fn units(&self, _tier: Tier) -> usize {
         2
     }
+    fn case_timeout_s(&self, tier: Tier) -> f64 {
+        // one case is a whole breadth-first search
+        match tier {
+            Tier::Quick => 120.0,
+            Tier::Thorough => 3000.0,
+        }
+    }
     fn unit_label(&self, _tier: Tier, unit: usize) -> String {
         ["2D", "3D"][unit].to_string()
     }
